@@ -489,6 +489,15 @@ func RunProperty(id, tier string) int {
 					suffix = ""
 				}
 			}
+			if res.Candidate && res.Model != nil && r.spec.Kind == "lemma" && res.Status != Refuted {
+				// candidate input (see solve.go): it counts only if the real code fails on it
+				ro := ReplayLemma(prog, r.fn, o.ModelTerms, res.Model, work)
+				payload["candidate_model"] = res.Model
+				payload["replay"] = ro
+				if ro.Confirmed {
+					suffix = ""
+				}
+			}
 			if res.Status == Refuted && res.Model != nil {
 				payload["model"] = res.Model
 				if r.spec.Kind == "lemma" {
